@@ -4,7 +4,7 @@
 cd "$(dirname "$0")/.."
 mkdir -p out
 for pid in "$@"; do
-  for sd in seeded/$pid-*; do
+  for sd in seeded/$pid-${SEEDSUF:-*}; do
     [ -f "$sd/patch.diff" ] || continue
     o=$(tools/run_seeded.sh "$sd" "$pid" quick 2>&1)
     line=$(echo "$o" | grep -E '^VIOLATION' | head -1)
